@@ -530,10 +530,20 @@ func runC16(a *Args) error {
 	plain := func(name string) bool {
 		return name != "" && name != "." && name != ".." && !strings.ContainsAny(name, "/\\\x00")
 	}
+	// ONE manager per (world, root spelling) for the whole run: every case is a
+	// step in a long history of calls on the same instance (valid and refused
+	// names, lookups, removals and installs alternating)
+	type mgrKey struct{ d, v int }
+	mgrs := map[mgrKey]*plugin.CLIManager{}
 	mgrFor := func(wd *world, v int) (*plugin.CLIManager, string) {
 		rr := wd.real(rootSpell(wd, v))
-		return plugin.NewCLIManager(dir.NewSysFS(rr)), rr
+		k := mgrKey{wd.depth, v}
+		if mgrs[k] == nil {
+			mgrs[k] = plugin.NewCLIManager(dir.NewSysFS(rr))
+		}
+		return mgrs[k], rr
 	}
+	verifiers := map[mgrKey]notation.Verifier{}
 	// outside-the-sandbox check after an operation
 	checkOutside := func(my int64, wd *world, rr, name string, c *c16Case) {
 		for _, t := range wd.targets(rr, name) {
@@ -619,10 +629,16 @@ func runC16(a *Args) error {
 				c := &c16Case{Op: "verify", Name: strconv.Quote(seen), Depth: d, Root: rootSpell(wd, v), Format: format}
 				var errc string
 				o := runFs(wd, nil, func() {
-					vr, err := verifier.New(vf.policy, vf.store, mgr)
-					if err != nil {
-						panic(fmt.Sprintf("c16: verifier: %v", err))
+					vr := verifiers[mgrKey{d, v}]
+					if vr == nil {
+						var err error
+						vr, err = verifier.New(vf.policy, vf.store, mgr)
+						if err != nil {
+							panic(fmt.Sprintf("c16: verifier: %v", err))
+						}
+						verifiers[mgrKey{d, v}] = vr
 					}
+					var err error
 					cctx, cancel := context.WithTimeout(ctx, 30*time.Second)
 					defer cancel()
 					_, err = vr.Verify(cctx, vf.desc, env, notation.VerifierVerifyOptions{ArtifactReference: TestRef, SignatureMediaType: format})
@@ -678,7 +694,7 @@ func runC16(a *Args) error {
 			add(strings.Repeat(".", k))
 		}
 	}
-	for _, n := range []string{"", ".", "..", "...", "....", ".good", "good.", "./good", "good/.", "good/", "good//", "/good", "//good", "good/..",
+	for _, n := range []string{"", ".", "..", "...", "....", ".good", "good.", "..good", "good..", "..x", "x..", ".notation-", ". .", ".. ", " ..", "..\t", "./good", "good/.", "good/", "good//", "/good", "//good", "good/..",
 		"good/../other", "good/sub", "good/./sub", "good/sub/..", "good/notation-good", "other/other", "./", "/", "//", "/.", "/..", "../", "..//", "./..", "./.",
 		"a\\b", "..\\victim", "good\\", "\\", "\\..", "..\\", "a\\..\\b", "\\good", "good\\sub",
 		"good\x00", "\x00", "../\x00", "go\x00od", "\x00good", "good\x00/../x", ".\x00", "..\x00",
@@ -841,7 +857,24 @@ func runC16(a *Args) error {
 	}
 	installCase(1, 0, false, []srcFile{{"readme", node{}}}, true, true)
 	installCase(2, 0, true, []srcFile{{"plugin-good", file(true, "good", 7)}}, false, true)
-	installCase(2, 0, true, []srcFile{{"notation-", file(true, "", 7)}}, false, true)
+	for _, ow := range []bool{false, true} {
+		for d := 1; d <= 4; d++ {
+			// the three file names whose derived name is not a component, metadata repeating the name
+			for _, n := range []string{"..", ".", ""} {
+				fn := "notation-" + n
+				installCase(d, 0, true, []srcFile{{fn, file(true, n, 7)}}, false, ow)
+				installCase(d, d%4, false, []srcFile{{fn, file(true, n, 7)}}, false, ow)
+				installCase(d, 0, false, []srcFile{{fn, file(false, n, 7)}}, false, ow)
+				// candidate position: a non-executable candidate before / after the executable
+				installCase(d, 0, false, []srcFile{{"notation-!", file(false, "!", 7)}, {fn, file(true, n, 7)}, {"notation-zz", file(false, "zz", 7)}}, false, ow)
+			}
+		}
+		// candidate position with a valid name: before, between, after other files
+		installCase(1, 0, false, []srcFile{{"a.txt", node{}}, {"notation-fresh", file(true, "fresh", 7)}, {"z.txt", node{}}}, false, ow)
+		installCase(2, 0, false, []srcFile{{"notation-!", file(false, "!", 7)}, {"notation-fresh", file(true, "fresh", 7)}, {"notation-zz", file(false, "zz", 7)}}, true, ow)
+		installCase(3, 0, false, []srcFile{{"notation-fresh", file(true, "fresh", 7)}, {"notation-zz", file(false, "zz", 7)}, {"z.txt", node{}}}, false, ow)
+		installCase(4, 0, false, []srcFile{{"a.txt", node{}}, {"notation-!", file(false, "!", 7)}, {"notation-fresh", file(true, "fresh", 7)}}, false, ow)
+	}
 
 	// interleave
 	{
@@ -951,6 +984,19 @@ func listCases(a *Args, w *CaseWriter, rng *Rng, id *int64, thorough bool) {
 			used[nm] = true
 			ents = append(ents, ent{nm, kind})
 		}
+		if k < 15 {
+			// systematic: one odd entry (file, link to dir, link to file, dangling link, FIFO)
+			// first / in the middle / last among real directories
+			odd, pos := 2+k%5, k/5
+			ents = nil
+			for j, nm := range []string{"a", "m", "z"} {
+				kind := 0
+				if j == pos {
+					kind = odd
+				}
+				ents = append(ents, ent{nm, kind})
+			}
+		}
 		exists := !(k%23 == 22)
 		if !w.Want(my) {
 			continue
@@ -983,7 +1029,10 @@ func listCases(a *Args, w *CaseWriter, rng *Rng, id *int64, thorough bool) {
 		}
 		mgr := plugin.NewCLIManager(dir.NewSysFS(root))
 		entT, kinds := readEntries(root)
-		got, err := mgr.List(ctx)
+		got, err, blocked := listWithDeadline(ctx, mgr, root)
+		if blocked {
+			w.ImplViolation(my, "List did not return within 5 s (it opened a FIFO entry of the plugin root)", &c16Case{Op: "list", Root: "/tmp/vh-c16l/root", Entries: kinds}, "")
+		}
 		_, kinds2 := readEntries(root)
 		c := &c16Case{Op: "list", Root: "/tmp/vh-c16l/root", Entries: kinds, Err: classify(err), Strs: got}
 		var o fsObs
@@ -1002,6 +1051,41 @@ func listCases(a *Args, w *CaseWriter, rng *Rng, id *int64, thorough bool) {
 		w.Count("op", "list")
 		w.Count("err", classify(err))
 	}
+}
+
+// listWithDeadline runs List with a 5 s watchdog; when it blocks (on a FIFO
+// of the root) the FIFOs are released by opening them for writing.
+func listWithDeadline(ctx context.Context, mgr *plugin.CLIManager, root string) ([]string, error, bool) {
+	type res struct {
+		got []string
+		err error
+	}
+	ch := make(chan res, 1)
+	go func() {
+		g, e := mgr.List(ctx)
+		ch <- res{g, e}
+	}()
+	select {
+	case r := <-ch:
+		return r.got, r.err, false
+	case <-time.After(5 * time.Second):
+	}
+	for tries := 0; tries < 50; tries++ {
+		des, _ := os.ReadDir(root)
+		for _, de := range des {
+			if de.Type()&os.ModeNamedPipe != 0 {
+				if f, err := os.OpenFile(filepath.Join(root, de.Name()), os.O_WRONLY|syscall.O_NONBLOCK, 0); err == nil {
+					f.Close()
+				}
+			}
+		}
+		select {
+		case r := <-ch:
+			return r.got, r.err, true
+		case <-time.After(100 * time.Millisecond):
+		}
+	}
+	return nil, errors.New("List blocked"), true
 }
 
 // ---- end-to-end verification ----
